@@ -27,6 +27,8 @@ def comp_text(c) -> str:
         return str(c["v"])
     if k in ("ts", "tv"):
         return "I"
+    if k == "dsl":
+        return "I:I + 1"
     s, e, st = c["s"], c["e"], c["st"]
     t = ("" if s == NONE else str(s)) + ":" + ("" if e == NONE else str(e))
     if st != NONE:
@@ -40,7 +42,7 @@ def expr_text(idx) -> str:
 
 def index_tensor(idx):
     for c in idx:
-        if c["k"] == "ts":
+        if c["k"] in ("ts", "dsl"):
             return np.array(c["v"], dtype=np.int64)
         if c["k"] == "tv":
             return np.array(c["vs"], dtype=np.int64)
@@ -55,6 +57,8 @@ def np_index(idx, I):
             out.append(c["v"])
         elif k in ("ts", "tv"):
             out.append(I)
+        elif k == "dsl":
+            out.append(slice(int(I), int(I) + 1))
         else:
             out.append(slice(*(None if v == NONE else v for v in (c["s"], c["e"], c["st"]))))
     return tuple(out)
@@ -168,7 +172,7 @@ def run(ctx: core.Ctx):
     ctx.set("spec_cases", len(states))
     bykey: dict[str, list] = {}
     for s in states:
-        key = expr_text(s["idx"]) + "|" + next((c["k"] for c in s["idx"] if c["k"] in ("ts", "tv")), "")
+        key = expr_text(s["idx"]) + "|" + next((c["k"] for c in s["idx"] if c["k"] in ("ts", "tv", "dsl")), "")
         bykey.setdefault(key, []).append(s)
     keys = sorted(bykey)
     if ctx.quick:
